@@ -1,12 +1,842 @@
-//! C14: not yet implemented
+//! C14: materials (`Material::from_existing`) and shader packages (`ShaderPackage::from_existing`,
+//! `find_node`, `build_selector*`, `crc`) decode to what their files store.
+//!
+//! The generator writes *abstract* stored values (records, counts, heaps with offsets); the Lean
+//! driver encodes them with `Spec.Shpk.encode` / `Spec.Mtrl.encode`.  `run` feeds the encoded file
+//! to the real code and prints the canonical text of `Spec/ShpkText.lean` / `Spec/MtrlText.lean`;
+//! private fields are read from the `{:?}` output (`dbgparse`).
 #![allow(unused)]
+use crate::dbgparse::{self, D};
 use crate::util::*;
 use std::io::Write;
 
-pub fn generate(thorough: bool, seed: u64, out: &mut dyn Write) {}
+// ------------------------------------------------------------------------------------------
+// generation helpers
+// ------------------------------------------------------------------------------------------
+
+fn list<T, F: Fn(&T) -> String>(xs: &[T], sep: &str, f: F) -> String {
+    if xs.is_empty() {
+        "-".to_string()
+    } else {
+        xs.iter().map(f).collect::<Vec<_>>().join(sep)
+    }
+}
+
+fn u16_edge(rng: &mut Rng) -> u16 {
+    match rng.below(6) {
+        0 => 0,
+        1 => 1,
+        2 => 0xFFFF,
+        3 => 0x8000,
+        _ => rng.next() as u16,
+    }
+}
+
+fn ident(rng: &mut Rng) -> Vec<u8> {
+    const PRE: [&str; 8] = ["g_", "g_Sampler", "g_Material", "Camera", "s_", "t", "PS_", "VS_"];
+    let mut v = rng.pick(&PRE).as_bytes().to_vec();
+    let n = rng.below(12);
+    for _ in 0..n {
+        let c = match rng.below(4) {
+            0 => rng.range(b'A' as u64, b'Z' as u64),
+            1 => rng.range(b'0' as u64, b'9' as u64),
+            2 => b'_' as u64,
+            _ => rng.range(b'a' as u64, b'z' as u64),
+        };
+        v.push(c as u8);
+    }
+    if rng.chance(1, 20) {
+        // any printable ASCII, including quotes and backslashes (Debug escaping)
+        let k = rng.range(1, 6);
+        for _ in 0..k {
+            v.push(rng.range(0x20, 0x7E) as u8);
+        }
+    }
+    v
+}
+
+/// A string heap under construction: names are NUL-terminated, may be shared between records,
+/// and a record may declare a length that includes NUL padding.
+struct Heap {
+    bytes: Vec<u8>,
+    names: Vec<(usize, usize)>, // (offset, length without NUL)
+}
+
+impl Heap {
+    fn new(rng: &mut Rng) -> Heap {
+        let mut h = Heap { bytes: vec![], names: vec![] };
+        if rng.chance(1, 4) {
+            h.bytes.push(0); // leading NUL as in some real heaps
+        }
+        h
+    }
+    /// returns (offset, declared length)
+    fn name(&mut self, rng: &mut Rng) -> (u32, u16) {
+        if !self.names.is_empty() && rng.chance(1, 4) {
+            // share an existing string
+            let (o, l) = *rng.pick(&self.names);
+            let pad = self.pad_at(o + l, rng);
+            return (o as u32, (l + pad) as u16);
+        }
+        let id = if rng.chance(1, 25) { vec![] } else { ident(rng) };
+        let o = self.bytes.len();
+        self.bytes.extend_from_slice(&id);
+        let nuls = match rng.below(6) {
+            0 => 0,
+            1 | 2 | 3 => 1,
+            _ => rng.range(2, 5),
+        } as usize;
+        for _ in 0..nuls {
+            self.bytes.push(0);
+        }
+        if nuls == 0 && !id.is_empty() {
+            // unterminated: the declared length alone delimits it; never shared
+            return (o as u32, id.len() as u16);
+        }
+        self.names.push((o, id.len()));
+        let pad = self.pad_at(o + id.len(), rng);
+        (o as u32, (id.len() + pad) as u16)
+    }
+    /// how many of the NULs following position `p` the declared length includes
+    fn pad_at(&self, p: usize, rng: &mut Rng) -> usize {
+        let mut avail = 0;
+        while p + avail < self.bytes.len() && self.bytes[p + avail] == 0 {
+            avail += 1;
+        }
+        match rng.below(3) {
+            0 => 0,
+            1 => avail.min(1),
+            _ => rng.below(avail as u64 + 1) as usize,
+        }
+    }
+}
+
+struct ParamG {
+    id: u32,
+    off: u32,
+    len: u16,
+    unk: u16,
+    slot: u16,
+    size: u16,
+}
+
+fn params(rng: &mut Rng, heap: &mut Heap, max: u64) -> Vec<ParamG> {
+    let n = if rng.chance(1, 3) { 0 } else { rng.range(0, max) };
+    (0..n)
+        .map(|_| {
+            let (off, len) = heap.name(rng);
+            ParamG { id: rng.u32_edge(), off, len, unk: u16_edge(rng), slot: u16_edge(rng), size: u16_edge(rng) }
+        })
+        .collect()
+}
+
+fn params_str(ps: &[ParamG]) -> String {
+    list(ps, ",", |p| format!("{}:{}:{}:{}:{}:{}", p.id, p.off, p.len, p.unk, p.slot, p.size))
+}
+
+fn u32s(xs: &[u32]) -> String {
+    list(xs, ",", |x| x.to_string())
+}
+
+struct ShaderG {
+    off: u32,
+    size: u32,
+    lists: [Vec<ParamG>; 4],
+}
+
+fn gen_shpk(rng: &mut Rng, big: bool) -> String {
+    let mut heap = Heap::new(rng);
+    let m = if big { 6 } else { 3 };
+    let nvs = rng.range(0, m);
+    let nps = rng.range(0, m);
+    // blob region: per shader a slot; slots may be listed in any order, may overlap or leave gaps
+    let mut blob: Vec<u8> = vec![];
+    let mut shaders: Vec<(bool, ShaderG)> = vec![];
+    let mut order: Vec<bool> = (0..nvs).map(|_| true).chain((0..nps).map(|_| false)).collect();
+    // shuffle blob order
+    for i in (1..order.len()).rev() {
+        let j = rng.below(i as u64 + 1) as usize;
+        order.swap(i, j);
+    }
+    for &is_vertex in &order {
+        if rng.chance(1, 5) {
+            let k = rng.range(1, 7) as usize;
+            blob.extend(rng.bytes(k)); // gap
+        }
+        let size = match rng.below(5) {
+            0 => 0,
+            1 => rng.range(1, 4),
+            _ => rng.range(4, if big { 300 } else { 40 }),
+        } as usize;
+        let off = blob.len();
+        if is_vertex {
+            blob.extend(rng.bytes(8));
+        }
+        blob.extend(rng.bytes(size));
+        let lists = [params(rng, &mut heap, 3), params(rng, &mut heap, 3), params(rng, &mut heap, 2), params(rng, &mut heap, 3)];
+        shaders.push((is_vertex, ShaderG { off: off as u32, size: size as u32, lists }));
+    }
+    if rng.chance(1, 6) && !shaders.is_empty() {
+        // two shaders sharing one blob
+        let k = rng.below(shaders.len() as u64) as usize;
+        let (v, o, s) = (shaders[k].0, shaders[k].1.off, shaders[k].1.size);
+        for sh in shaders.iter_mut() {
+            if sh.0 == v && rng.chance(1, 2) {
+                sh.1.off = o;
+                sh.1.size = s;
+            }
+        }
+    }
+    let shader_str = |vertex: bool| {
+        let v: Vec<&ShaderG> = shaders.iter().filter(|s| s.0 == vertex).map(|s| &s.1).collect();
+        list(&v, ";", |s| {
+            format!("{}/{}/{}/{}/{}/{}", s.off, s.size, params_str(&s.lists[0]), params_str(&s.lists[1]), params_str(&s.lists[2]), params_str(&s.lists[3]))
+        })
+    };
+    let vs = shader_str(true);
+    let ps = shader_str(false);
+    let nmp = rng.range(0, m);
+    let mp: Vec<String> = (0..nmp).map(|_| format!("{}:{}:{}", rng.u32_edge(), u16_edge(rng), u16_edge(rng))).collect();
+    let hd: u16 = match rng.below(6) {
+        0 | 1 => 0,
+        2 | 3 | 4 => 1,
+        _ => *rng.pick(&[2u16, 0x101, 0xFFFF, 0x100]),
+    };
+    let (mps, defs): (u32, Vec<u32>) = if hd == 1 {
+        let n = rng.range(0, if big { 40 } else { 8 }) as u32;
+        let mps = n * 4 + rng.below(4) as u32; // not necessarily a multiple of 4: the count is size >> 2
+        (mps, (0..n).map(|_| f32_edge(rng)).collect())
+    } else {
+        (rng.u32_edge(), vec![])
+    };
+    let lists = [params(rng, &mut heap, m), params(rng, &mut heap, m), params(rng, &mut heap, m), params(rng, &mut heap, 2)];
+    let nsk = rng.range(0, 3);
+    let nck = rng.range(0, 3);
+    let nmk = rng.range(0, 4);
+    let keys = |rng: &mut Rng, n: u64| -> String {
+        let v: Vec<String> = (0..n).map(|_| format!("{}:{}", rng.u32_edge(), rng.u32_edge())).collect();
+        list(&v, ",", |s| s.clone())
+    };
+    let sk = keys(rng, nsk);
+    let ck = keys(rng, nck);
+    let mk = keys(rng, nmk);
+    // nodes: selectors from a small pool so that duplicates and alias/node clashes occur
+    let pool: Vec<u32> = (0..6).map(|_| rng.u32_edge()).collect();
+    let nn = rng.range(0, if big { 8 } else { 4 });
+    let mut nodes = vec![];
+    let mut node_sels = vec![];
+    for _ in 0..nn {
+        let sel = if rng.chance(2, 3) { *rng.pick(&pool) } else { rng.next() as u32 };
+        node_sels.push(sel);
+        let npass = rng.range(0, 3);
+        let passes: Vec<String> = (0..npass).map(|_| format!("{}:{}:{}", rng.u32_edge(), rng.below(8), rng.below(8))).collect();
+        let kl = |rng: &mut Rng, n: u64| -> String { u32s(&(0..n).map(|_| rng.u32_edge()).collect::<Vec<_>>()) };
+        nodes.push(format!("{}/{}/{}/{}/{}/{}/{}", sel, hex(&rng.bytes(16)), kl(rng, nsk), kl(rng, nck), kl(rng, nmk), kl(rng, 2), list(&passes, ",", |s| s.clone())));
+    }
+    let na = if nn == 0 { 0 } else { rng.range(0, 4) };
+    let mut aliases = vec![];
+    let mut alias_sels = vec![];
+    for _ in 0..na {
+        let sel = if rng.chance(2, 3) { *rng.pick(&pool) } else { rng.next() as u32 };
+        alias_sels.push(sel);
+        aliases.push(format!("{}:{}", sel, rng.below(nn)));
+    }
+    let mut q: Vec<u32> = vec![];
+    q.extend(node_sels.iter());
+    q.extend(alias_sels.iter());
+    q.extend(pool.iter().take(3));
+    q.push(rng.next() as u32);
+    let fmt: &[u8] = match rng.below(8) {
+        0 | 1 | 2 => b"DX11",
+        3 | 4 => b"DX9\0",
+        5 => b"\0\0\0\0",
+        6 => b"\0X\0\0",
+        _ => b"D\"\\'",
+    };
+    if rng.chance(1, 5) {
+        let k = rng.range(1, 9) as usize;
+        blob.extend(rng.bytes(k));
+    }
+    format!(
+        "shpk ver={} fmt={} flen={} mps={} hd={} u1={} u2={} vs={} ps={} mp={} def={} sc={} sa={} tx={} ua={} sk={} ck={} mk={} sv={},{} nodes={} al={} blob={} str={} q={}",
+        rng.u32_edge(), hex(fmt), rng.u32_edge(), mps, hd, u16_edge(rng), u16_edge(rng), vs, ps,
+        list(&mp, ",", |s| s.clone()), u32s(&defs),
+        params_str(&lists[0]), params_str(&lists[1]), params_str(&lists[2]), params_str(&lists[3]),
+        sk, ck, mk, rng.u32_edge(), rng.u32_edge(),
+        list(&nodes, ";", |s| s.clone()), list(&aliases, ",", |s| s.clone()),
+        hex(&blob), hex(&heap.bytes), u32s(&q)
+    )
+}
+
+
+// ------------------------------------------------------------------------------------------
+// materials
+// ------------------------------------------------------------------------------------------
+
+fn half_edge(rng: &mut Rng) -> u16 {
+    match rng.below(14) {
+        0 => 0,
+        1 => 0x8000,
+        2 => 0x3C00,
+        3 => 0x7C00,
+        4 => 0xFC00,
+        5 => 0x7E00,
+        6 => 0x7C01,
+        7 => rng.range(1, 0x3FF) as u16,          // subnormal
+        8 => 0x8000 | rng.range(1, 0x3FF) as u16, // negative subnormal
+        9 => 0x7BFF,
+        10 => 0x0400,
+        _ => rng.next() as u16,
+    }
+}
+
+fn words_hex(ws: &[u16]) -> String {
+    ws.iter().map(|w| format!("{:04x}", w)).collect::<Vec<_>>().join("")
+}
+
+fn tex_path(rng: &mut Rng) -> Vec<u8> {
+    if rng.chance(1, 15) {
+        return vec![];
+    }
+    const DIRS: [&str; 5] = ["chara/equipment/e", "chara/human/c", "bg/ffxiv/sea_s1/twn/common/texture/", "chara/common/texture/", "t"];
+    let mut v = rng.pick(&DIRS).as_bytes().to_vec();
+    let n = rng.range(0, 20);
+    for _ in 0..n {
+        let c = match rng.below(5) {
+            0 => b'/' as u64,
+            1 => rng.range(b'0' as u64, b'9' as u64),
+            2 => b'_' as u64,
+            _ => rng.range(b'a' as u64, b'z' as u64),
+        };
+        v.push(c as u8);
+    }
+    if rng.chance(1, 20) {
+        let k = rng.range(1, 4);
+        for _ in 0..k {
+            v.push(rng.range(1, 0x7F) as u8); // any non-NUL ASCII, including control characters
+        }
+    }
+    v.extend_from_slice(b".tex");
+    v
+}
+
+/// `rows`: Some(base) = consecutive half patterns starting at `base` (exhaustive sweep)
+fn gen_mtrl(rng: &mut Rng, sweep: Option<u32>) -> String {
+    let ntex = if sweep.is_some() { 1 } else { rng.range(0, 4) };
+    let textures: Vec<Vec<u8>> = (0..ntex).map(|_| tex_path(rng)).collect();
+    let tex_len: usize = textures.iter().map(|t| t.len() + 1).sum();
+    // rest of the heap: set names, shader package name, padding
+    let mut rest: Vec<u8> = vec![];
+    let nuv = rng.range(0, 3);
+    let ncs = rng.range(0, 2);
+    let mut uv = vec![];
+    for i in 0..nuv {
+        uv.push(format!("{}:{}", tex_len + rest.len(), if rng.chance(1, 4) { u16_edge(rng) } else { i as u16 }));
+        rest.extend_from_slice(ident(rng).as_slice());
+        rest.push(0);
+    }
+    let mut cs = vec![];
+    for i in 0..ncs {
+        cs.push(format!("{}:{}", tex_len + rest.len(), i));
+        rest.extend_from_slice(ident(rng).as_slice());
+        rest.push(0);
+    }
+    let mut spo = tex_len + rest.len();
+    const SHPK: [&str; 6] = ["character.shpk", "skin.shpk", "bg.shpk", "characterlegacy.shpk", "iris.shpk", ""];
+    rest.extend_from_slice(rng.pick(&SHPK).as_bytes());
+    if rng.chance(1, 10) {
+        rest.extend(ident(rng));
+    }
+    rest.push(0);
+    let pad = rng.below(5) as usize;
+    for _ in 0..pad {
+        rest.push(if rng.chance(1, 3) { rng.range(1, 0x7F) as u8 } else { 0 });
+    }
+    if tex_len > 0 && rng.chance(1, 8) {
+        // name offset pointing into the texture area (a suffix of a path, or a path start)
+        spo = rng.below(tex_len as u64) as usize;
+    }
+    // table flags
+    let dims: u32 = match (sweep.is_some(), rng.below(12)) {
+        (true, _) => 0x53,
+        (_, 0 | 1 | 2) => 0,
+        (_, 3 | 4) => 0x42,
+        (_, 5 | 6 | 7) => 0x53,
+        (_, 8) => *rng.pick(&[0x50u32, 0x5F, 0x52, 0x54]),
+        (_, 9) => *rng.pick(&[0x43u32, 0x41, 0x33, 0x60, 0x4F, 0x01, 0x10]),
+        _ => rng.below(256) as u32,
+    };
+    let has_table = sweep.is_some() || rng.chance(3, 4);
+    let has_dye = sweep.is_none() && rng.chance(1, 2);
+    let other = if rng.chance(1, 2) { 0 } else { (rng.next() as u32) & 0xFFFF_F003 };
+    let tf = other | (dims << 4) | if has_table { 4 } else { 0 } | if has_dye { 8 } else { 0 };
+    let ct = if !has_table {
+        "none".to_string()
+    } else if dims == 0 || dims == 0x42 || dims == 0x53 {
+        let (n, tag) = if dims == 0x53 { (32usize, "D") } else { (16usize, "L") };
+        let mut next = sweep.unwrap_or(0);
+        let rows: Vec<String> = (0..n)
+            .map(|_| {
+                let ws: Vec<u16> = (0..n)
+                    .map(|_| {
+                        if sweep.is_some() {
+                            next += 1;
+                            (next - 1) as u16
+                        } else {
+                            half_edge(rng)
+                        }
+                    })
+                    .collect();
+                words_hex(&ws)
+            })
+            .collect();
+        format!("{}:{}", tag, rows.join("/"))
+    } else {
+        "opaque".to_string()
+    };
+    let bits = |rng: &mut Rng, n: usize| -> String {
+        let all = rng.below(8);
+        (0..n).map(|_| if all == 0 { '1' } else if all == 1 { '0' } else if rng.chance(1, 2) { '1' } else { '0' }).collect()
+    };
+    let dye = if !has_dye {
+        "none".to_string()
+    } else if dims == 0 {
+        let rows: Vec<String> = (0..16).map(|_| format!("{}.{}", match rng.below(4) { 0 => 0, 1 => 2047, _ => rng.below(2048) }, bits(rng, 5))).collect();
+        format!("L:{}", rows.join(","))
+    } else if (0x50..=0x5F).contains(&dims) {
+        let rows: Vec<String> = (0..32)
+            .map(|_| {
+                let spare = if rng.chance(1, 2) { 0 } else { (rng.next() as u32) & !0x1FFF_0FFF };
+                format!("{}.{}.{}.{}", match rng.below(4) { 0 => 0, 1 => 2047, _ => rng.below(2048) }, rng.below(4), bits(rng, 12), spare)
+            })
+            .collect();
+        format!("D:{}", rows.join(","))
+    } else {
+        "opaque".to_string()
+    };
+    // shader values and constants
+    let nvals = if rng.chance(1, 6) { 0 } else { rng.range(1, 12) } as usize;
+    let vals: Vec<u32> = (0..nvals).map(|_| f32_edge(rng)).collect();
+    let svs = nvals * 4 + rng.below(4) as usize;
+    let trail_len = (svs - nvals * 4) + if rng.chance(1, 4) { rng.range(1, 8) as usize } else { 0 };
+    let nconst = rng.range(0, 4);
+    let consts: Vec<String> = (0..nconst)
+        .map(|_| {
+            let nf = (if rng.chance(1, 8) { 0 } else { rng.range(1, 4) } as usize).min(nvals);
+            let start = rng.below((nvals - nf) as u64 + 1) as usize;
+            let m1 = if rng.chance(1, 4) { 4 } else { 1 };
+            let m2 = if rng.chance(1, 4) { 4 } else { 1 };
+            format!("{}:{}:{}", rng.u32_edge(), start * 4 + rng.below(m1) as usize, nf * 4 + rng.below(m2) as usize)
+        })
+        .collect();
+    let nkeys = rng.range(0, 4);
+    let keys: Vec<String> = (0..nkeys).map(|_| format!("{}:{}", rng.u32_edge(), rng.u32_edge())).collect();
+    let nsamp = rng.range(0, 4);
+    let samps: Vec<String> = (0..nsamp)
+        .map(|_| format!("{}:{}:{}:{}:{}:{}", rng.below(22), rng.u32_edge(), rng.below(256), rng.below(256), rng.below(256), rng.below(256)))
+        .collect();
+    let offs: Vec<u32> = (0..ntex).map(|_| rng.u32_edge()).collect();
+    let ar_len = if rng.chance(1, 6) { rng.range(1, 6) as usize } else { 0 };
+    let sl = |v: &Vec<String>, sep: &str| list(v, sep, |s| s.clone());
+    format!(
+        "mtrl ver={} fsz={} dss={} tex={} rest={} spo={} offs={} uv={} cs={} tf={} ar={} ct={} dye={} svs={} mf={} keys={} const={} samp={} vals={} trail={}",
+        rng.u32_edge(), u16_edge(rng), u16_edge(rng),
+        list(&textures, ";", |t| if t.is_empty() { "e".to_string() } else { hex(t) }), hex(&rest), spo, u32s(&offs), sl(&uv, ","), sl(&cs, ","),
+        tf, hex(&rng.bytes(ar_len)), ct, dye, svs, rng.u32_edge(), sl(&keys, ","), sl(&consts, ","), sl(&samps, ","),
+        u32s(&vals), hex(&rng.bytes(trail_len))
+    )
+}
+
+/// f32 bit patterns biased to special values (zeros, subnormals, infinities, NaNs)
+fn f32_edge(rng: &mut Rng) -> u32 {
+    match rng.below(12) {
+        0 => 0,
+        1 => 0x8000_0000,
+        2 => 0x3F80_0000,
+        3 => 0x7F80_0000,
+        4 => 0xFF80_0000,
+        5 => 0x7FC0_0000,
+        6 => 1,
+        7 => 0x007F_FFFF,
+        8 => (rng.below(200) as f32 * 0.25).to_bits(),
+        _ => rng.next() as u32,
+    }
+}
+
+pub fn generate(thorough: bool, seed: u64, out: &mut dyn Write) {
+    let mut rng = Rng::new(seed, "C14");
+    // ---- f16 -> f32: all 65 536 patterns, 1024 per line
+    for base in (0..65536u32).step_by(1024) {
+        let v: Vec<u32> = (base..base + 1024).collect();
+        writeln!(out, "half {}", u32s(&v)).unwrap();
+    }
+    // ---- selectors
+    writeln!(out, "sel -").unwrap();
+    for k in [0u32, 1, 31, 0xFFFF_FFFF, 0x8000_0000] {
+        writeln!(out, "sel {}", k).unwrap();
+        writeln!(out, "sel {},{}", k, k).unwrap();
+    }
+    let n = if thorough { 20_000 } else { 600 };
+    for _ in 0..n {
+        let len = match rng.below(10) {
+            0 => rng.range(0, 2),
+            1..=7 => rng.range(2, 12),
+            _ => rng.range(12, 200),
+        };
+        let ks: Vec<u32> = (0..len).map(|_| rng.u32_edge()).collect();
+        writeln!(out, "sel {}", u32s(&ks)).unwrap();
+    }
+    for _ in 0..n / 2 {
+        let mut parts = vec![];
+        for _ in 0..4 {
+            let len = rng.range(0, 6);
+            let ks: Vec<u32> = (0..len).map(|_| rng.u32_edge()).collect();
+            parts.push(u32s(&ks));
+        }
+        writeln!(out, "selall {}", parts.join(" ")).unwrap();
+    }
+    // ---- shader-key CRC (the bulk of this is under C12)
+    for _ in 0..n / 4 {
+        let len = rng.range(0, 40) as usize;
+        let s: Vec<u8> = (0..len).map(|_| rng.range(0x20, 0x7E) as u8).collect();
+        writeln!(out, "shcrc {}", hex(&s)).unwrap();
+    }
+    // ---- shader packages
+    let n = if thorough { 150_000 } else { 500 };
+    for i in 0..n {
+        writeln!(out, "{}", gen_shpk(&mut rng, i % 10 == 9)).unwrap();
+    }
+    // ---- materials: every half pattern through a Dawntrail colour table (32 rows x 32 words; the
+    // second pass shifts by 4 so that patterns that met a raw u16 slot meet a half slot)
+    for shift in [0u32, 4] {
+        for base in (0..65536u32).step_by(1024) {
+            writeln!(out, "{}", gen_mtrl(&mut rng, Some(base + shift))).unwrap();
+        }
+    }
+    let n = if thorough { 150_000 } else { 400 };
+    for _ in 0..n {
+        writeln!(out, "{}", gen_mtrl(&mut rng, None)).unwrap();
+    }
+}
+
+// ------------------------------------------------------------------------------------------
+// running the real code
+// ------------------------------------------------------------------------------------------
+
+fn brk(xs: Vec<String>, sep: &str) -> String {
+    format!("[{}]", xs.join(sep))
+}
+
+fn f32dbg(d: &D) -> String {
+    match d.f32_bits() {
+        Some(b) => b.to_string(),
+        None => "nan".to_string(),
+    }
+}
+
+fn render_param(p: &physis::shpk::ResourceParameter, d: &D) -> String {
+    format!("{}:{}:{}:{}:{}", d.field("id").num(), d.field("unknown").num(), p.slot, d.field("size").num(), hex(p.name.as_bytes()))
+}
+
+fn render_params(ps: &[physis::shpk::ResourceParameter], d: &D) -> String {
+    let ds = d.list();
+    assert!(ds.len() == ps.len());
+    brk(ps.iter().zip(ds).map(|(p, d)| render_param(p, d)).collect(), ",")
+}
+
+fn render_shader(s: &physis::shpk::Shader, d: &D) -> String {
+    format!(
+        "{}/{}/{}/{}/{}/{}/{}/{}/{}/{}/{}/{}",
+        d.field("data_offset").num(),
+        d.field("data_size").num(),
+        d.field("scalar_parameter_count").num(),
+        d.field("resource_parameter_count").num(),
+        d.field("uav_parameter_count").num(),
+        d.field("texture_count").num(),
+        render_params(&s.scalar_parameters, d.field("scalar_parameters")),
+        render_params(&s.resource_parameters, d.field("resource_parameters")),
+        render_params(&s.uav_parameters, d.field("uav_parameters")),
+        render_params(&s.texture_parameters, d.field("texture_parameters")),
+        hex(&s.additional_data),
+        hex(&s.bytecode)
+    )
+}
+
+fn render_shaders(ss: &[physis::shpk::Shader], d: &D) -> String {
+    let ds = d.list();
+    assert!(ds.len() == ss.len());
+    brk(ss.iter().zip(ds).map(|(s, d)| render_shader(s, d)).collect(), "|")
+}
+
+fn render_dbg_params(d: &D) -> String {
+    brk(
+        d.list()
+            .iter()
+            .map(|d| format!("{}:{}:{}:{}:{}", d.field("id").num(), d.field("unknown").num(), d.field("slot").num(), d.field("size").num(), hex(d.field("name").string().as_bytes())))
+            .collect(),
+        ",",
+    )
+}
+
+fn render_keys(ks: &[physis::shpk::Key]) -> String {
+    brk(ks.iter().map(|k| format!("{}:{}", k.id, k.default_value)).collect(), ",")
+}
+
+fn run_shpk(file: &[u8], qs: &[u32]) -> String {
+    let Some(p) = physis::shpk::ShaderPackage::from_existing(file) else { return "none".into() };
+    let d = dbgparse::parse(&format!("{:?}", p));
+    let mut o: Vec<String> = vec![];
+    let num = |k: &str, f: &str| format!("{}={}", k, d.field(f).num());
+    o.push(num("ver", "version"));
+    o.push(format!("fmt={}", hex(d.field("format").string().as_bytes())));
+    o.push(num("flen", "file_length"));
+    o.push(num("sdo", "shader_data_offset"));
+    o.push(num("so", "strings_offset"));
+    o.push(num("vsc", "vertex_shader_count"));
+    o.push(num("psc", "pixel_shader_count"));
+    o.push(format!("mps={}", p.material_parameters_size));
+    o.push(num("mpc", "material_parameter_count"));
+    o.push(num("hd", "has_mat_param_defaults"));
+    o.push(num("scc", "scalar_parameter_count"));
+    o.push(num("sac", "sampler_count"));
+    o.push(num("txc", "texture_count"));
+    o.push(num("uac", "uav_count"));
+    o.push(num("skc", "system_key_count"));
+    o.push(num("ckc", "scene_key_count"));
+    o.push(num("mkc", "material_key_count"));
+    o.push(num("nc", "node_count"));
+    o.push(num("nac", "node_alias_count"));
+    o.push(format!("vs={}", render_shaders(&p.vertex_shaders, d.field("vertex_shaders"))));
+    o.push(format!("ps={}", render_shaders(&p.pixel_shaders, d.field("pixel_shaders"))));
+    assert!(d.field("material_parameters").list().len() == p.material_parameters.len());
+    o.push(format!(
+        "mp={}",
+        brk(d.field("material_parameters").list().iter().map(|m| format!("{}:{}:{}", m.field("id").num(), m.field("byte_offset").num(), m.field("byte_size").num())).collect(), ",")
+    ));
+    o.push(format!("def={}", brk(d.field("mat_param_defaults").list().iter().map(f32dbg).collect(), ",")));
+    o.push(format!("sc={}", render_dbg_params(d.field("scalar_parameters"))));
+    o.push(format!("sa={}", render_dbg_params(d.field("sampler_parameters"))));
+    o.push(format!("tx={}", render_dbg_params(d.field("texture_parameters"))));
+    o.push(format!("ua={}", render_dbg_params(d.field("uav_parameters"))));
+    o.push(format!("sk={}", render_keys(&p.system_keys)));
+    o.push(format!("ck={}", render_keys(&p.scene_keys)));
+    o.push(format!("mk={}", render_keys(&p.material_keys)));
+    o.push(format!("sv={},{}", p.sub_view_key1_default, p.sub_view_key2_default));
+    let dn = d.field("nodes").list();
+    assert!(dn.len() == p.nodes.len());
+    let u32l = |v: &[u32]| brk(v.iter().map(|x| x.to_string()).collect(), ",");
+    o.push(format!(
+        "nodes={}",
+        brk(
+            p.nodes
+                .iter()
+                .zip(dn)
+                .map(|(n, d)| {
+                    format!(
+                        "{}/{}/{}/{}/{}/{}/{}/{}",
+                        n.selector,
+                        n.pass_count,
+                        hex(&n.pass_indices),
+                        u32l(&n.system_keys),
+                        u32l(&n.scene_keys),
+                        u32l(&n.material_keys),
+                        u32l(&n.subview_keys),
+                        brk(d.field("passes").list().iter().map(|p| format!("{}:{}:{}", p.field("id").num(), p.field("vertex_shader").num(), p.field("pixel_shader").num())).collect(), ",")
+                    )
+                })
+                .collect(),
+            "|"
+        )
+    ));
+    let pair = |d: &D| match d {
+        D::Tuple(_, v) => format!("{}:{}", v[0].num(), v[1].num()),
+        _ => panic!("pair"),
+    };
+    o.push(format!("sel={}", brk(d.field("node_selectors").list().iter().map(pair).collect(), ",")));
+    o.push(format!("al={}", brk(d.field("node_aliases").list().iter().map(|a| format!("{}:{}", a.field("selector").num(), a.field("node").num())).collect(), ",")));
+    let finds: Vec<String> = qs
+        .iter()
+        .map(|&q| match p.find_node(q) {
+            None => "none".to_string(),
+            Some(n) => {
+                // index of the returned reference inside `nodes`
+                let base = p.nodes.as_ptr() as usize;
+                let at = n as *const physis::shpk::Node as usize;
+                ((at - base) / std::mem::size_of::<physis::shpk::Node>()).to_string()
+            }
+        })
+        .collect();
+    o.push(format!("find={}", brk(finds, ",")));
+    o.join(";")
+}
+
+fn bits(bs: &[bool]) -> String {
+    bs.iter().map(|&b| if b { '1' } else { '0' }).collect()
+}
+
+fn run_mtrl(file: &[u8]) -> String {
+    use physis::mtrl::*;
+    let Some(m) = Material::from_existing(file) else { return "none".into() };
+    let mut o: Vec<String> = vec![];
+    o.push(format!("shpk={}", hex(m.shader_package_name.as_bytes())));
+    o.push(format!("tex={}", brk(m.texture_paths.iter().map(|t| hex(t.as_bytes())).collect(), ",")));
+    o.push(format!("keys={}", brk(m.shader_keys.iter().map(|k| format!("{}:{}", k.category, k.value)).collect(), ",")));
+    let dc = dbgparse::parse(&format!("{:?}", m.constants));
+    o.push(format!(
+        "const={}",
+        brk(
+            dc.list()
+                .iter()
+                .map(|c| format!("{}:{}:{}", c.field("id").num(), c.field("num_values").num(), c.field("values").list().iter().map(f32dbg).collect::<Vec<_>>().join("/")))
+                .collect(),
+            ","
+        )
+    ));
+    let ds = dbgparse::parse(&format!("{:?}", m.samplers));
+    o.push(format!(
+        "samp={}",
+        brk(
+            ds.list()
+                .iter()
+                .map(|s| {
+                    format!(
+                        "{}:{}:{}:{}:{}:{}",
+                        s.field("texture_usage").atom(),
+                        s.field("flags").num(),
+                        s.field("texture_index").num(),
+                        s.field("unknown1").num(),
+                        s.field("unknown2").num(),
+                        s.field("unknown3").num()
+                    )
+                })
+                .collect(),
+            ","
+        )
+    ));
+    let f = |x: f32| x.to_bits().to_string();
+    let fs = |xs: &[f32]| xs.iter().map(|x| x.to_bits().to_string()).collect::<Vec<_>>();
+    o.push(format!(
+        "ct={}",
+        match &m.color_table {
+            None => "none".to_string(),
+            Some(ColorTable::OpaqueColorTable(_)) => "opaque".to_string(),
+            Some(ColorTable::LegacyColorTable(t)) => format!(
+                "legacy{}",
+                brk(
+                    t.rows
+                        .iter()
+                        .map(|r| {
+                            let mut v = fs(&r.diffuse_color);
+                            v.push(f(r.specular_strength));
+                            v.extend(fs(&r.specular_color));
+                            v.push(f(r.gloss_strength));
+                            v.extend(fs(&r.emissive_color));
+                            v.push(r.tile_set.to_string());
+                            v.extend(fs(&r.material_repeat));
+                            v.extend(fs(&r.material_skew));
+                            v.join(",")
+                        })
+                        .collect(),
+                    "|"
+                )
+            ),
+            Some(ColorTable::DawntrailColorTable(t)) => format!(
+                "dawntrail{}",
+                brk(
+                    t.rows
+                        .iter()
+                        .map(|r| {
+                            let mut v = fs(&r.diffuse_color);
+                            v.push(f(r.unknown1));
+                            v.extend(fs(&r.specular_color));
+                            v.push(f(r.unknown2));
+                            v.extend(fs(&r.emissive_color));
+                            for x in [r.unknown3, r.sheen_rate, r.sheen_tint, r.sheen_aperture, r.unknown4, r.roughness, r.unknown5, r.metalness, r.anisotropy, r.unknown6, r.sphere_mask, r.unknown7, r.unknown8] {
+                                v.push(f(x));
+                            }
+                            v.push(r.shader_index.to_string());
+                            v.push(r.tile_set.to_string());
+                            v.push(f(r.tile_alpha));
+                            v.push(r.sphere_index.to_string());
+                            v.extend(fs(&r.material_repeat));
+                            v.extend(fs(&r.material_skew));
+                            v.join(",")
+                        })
+                        .collect(),
+                    "|"
+                )
+            ),
+        }
+    ));
+    o.push(format!(
+        "dye={}",
+        match &m.color_dye_table {
+            None => "none".to_string(),
+            Some(ColorDyeTable::OpaqueColorDyeTable(_)) => "opaque".to_string(),
+            Some(ColorDyeTable::LegacyColorDyeTable(t)) => format!(
+                "legacy{}",
+                brk(t.rows.iter().map(|r| format!("{}:{}", r.template, bits(&[r.diffuse, r.specular, r.emissive, r.gloss, r.specular_strength]))).collect(), ",")
+            ),
+            Some(ColorDyeTable::DawntrailColorDyeTable(t)) => format!(
+                "dawntrail{}",
+                brk(
+                    t.rows
+                        .iter()
+                        .map(|r| {
+                            format!(
+                                "{}:{}:{}",
+                                r.template,
+                                r.channel,
+                                bits(&[r.diffuse, r.specular, r.emissive, r.scalar3, r.metalness, r.roughness, r.sheen_rate, r.sheen_tint_rate, r.sheen_aperture, r.anisotropy, r.sphere_map_index, r.sphere_map_mask])
+                            )
+                        })
+                        .collect(),
+                    ","
+                )
+            ),
+        }
+    ));
+    o.join(";")
+}
+
+fn parse_u32s(s: &str) -> Option<Vec<u32>> {
+    if s == "-" {
+        return Some(vec![]);
+    }
+    s.split(',').map(|x| x.parse::<u32>().ok()).collect()
+}
 
 pub fn run(case: &str, input: &str) -> String {
-    "unimplemented".to_string()
+    let f: Vec<&str> = input.split(' ').collect();
+    match (f[0], f.len()) {
+        ("sel", 2) => {
+            let Some(ks) = parse_u32s(f[1]) else { return "bad-case".into() };
+            guarded(move || physis::shpk::ShaderPackage::build_selector(&ks).to_string())
+        }
+        ("selall", 5) => {
+            let (Some(a), Some(b), Some(c), Some(d)) = (parse_u32s(f[1]), parse_u32s(f[2]), parse_u32s(f[3]), parse_u32s(f[4])) else { return "bad-case".into() };
+            guarded(move || physis::shpk::ShaderPackage::build_selector_from_all_keys(&a, &b, &c, &d).to_string())
+        }
+        ("shcrc", 2) => {
+            let Some(bytes) = unhex(f[1]) else { return "bad-case".into() };
+            let Ok(s) = String::from_utf8(bytes) else { return "bad-case".into() };
+            guarded(move || physis::shpk::ShaderPackage::crc(&s).to_string())
+        }
+        ("half", 2) => {
+            let Some(hs) = parse_u32s(f[1]) else { return "bad-case".into() };
+            let v: Vec<String> = hs.iter().map(|&h| half::f16::from_bits(h as u16).to_f32().to_bits().to_string()).collect();
+            if v.is_empty() { "-".into() } else { v.join(",") }
+        }
+        ("shpk", 3) => {
+            let (Some(file), Some(qs)) = (unhex(f[1]), parse_u32s(f[2])) else { return "bad-case".into() };
+            guarded(move || run_shpk(&file, &qs))
+        }
+        ("mtrl", 2) => {
+            let Some(file) = unhex(f[1]) else { return "bad-case".into() };
+            guarded(move || run_mtrl(&file))
+        }
+        _ => "bad-case".into(),
+    }
 }
 
 pub fn dump(out: &mut dyn Write) {}
